@@ -327,6 +327,11 @@ def rule_accessors(ctx):
                                        (isinstance(atom, ast.Compare) and isinstance(atom.ops[0], ast.NotIn) and isinstance(atom.comparators[0], ast.Name)) or
                                        (isinstance(atom, ast.UnaryOp) and isinstance(atom.operand, ast.Compare) and isinstance(atom.operand.ops[0], ast.In)
                                         and isinstance(atom.operand.comparators[0], ast.Name) and atom.operand.comparators[0].id != "self"))
+                            if not ok_atom and isinstance(atom, ast.Compare) and isinstance(atom.ops[0], ast.NotIn) \
+                                    and isinstance(atom.comparators[0], (ast.Tuple, ast.List, ast.Set)):
+                                # a literal list of the section's own plain attributes (not mnemonics)
+                                census = _attr_census(p, p.cls(SI))
+                                ok_atom = all(isinstance(e, ast.Constant) and e.value in census for e in atom.comparators[0].elts)
                             if not ok_atom:
                                 problems.append("attribute access is additionally restricted by `%s`: for such keys getattr() raises "
                                                 "although the key is in the section" % txt)
